@@ -59,7 +59,7 @@ EntryOK(i) == LET e == list[i] IN
   /\ e.t = "lnk" /\ opts.l => Ev.tgt = e.tgt
   /\ Ev.perm = e.perm
 DataOK ==
-  CASE Ev.item = "rule" -> /\ Ev.f \in 1..NRules /\ Ev.inc = rulesv[Ev.f].inc /\ Ev.pat = rulesv[Ev.f].pat
+  CASE Ev.item = "rule" -> /\ Ev.f \in 1..NRules /\ Ev.inc = rulesv[Ev.f].inc /\ Ev.pat = rulesv[Ev.f].pat \o (IF rulesv[Ev.f].dir THEN "/" ELSE "")
     [] Ev.item = "args" -> \* C14: every option that changes what the remote side must do reaches it, and nothing else does
                            /\ Ev.sender = Pull
                            /\ \A k \in {"r", "l", "p", "t", "dv", "sp", "c", "I", "n", "del"} : Ev.sopts[k] = opts[k]
